@@ -14,7 +14,6 @@ use tz::TimeZoneRef;
 const MIN: i64 = -67768100567971200;
 const MAX: i64 = 67767976233532799;
 
-
 /// the oracle for one instant, applied to both entry points
 #[inline]
 pub fn check(l: &mut Local, t: i64, ns: u32, cnt: &mut u64) {
@@ -55,15 +54,8 @@ pub fn check(l: &mut Local, t: i64, ns: u32, cnt: &mut u64) {
         }
         match &r1 {
             Ok(d) => {
-                let ok = d.year() as i64 == c.year
-                    && d.month() == c.month
-                    && d.month_day() == c.day
-                    && d.hour() == c.hour
-                    && d.minute() == c.minute
-                    && d.second() == c.second
-                    && d.week_day() == wd
-                    && d.year_day() == yd
-                    && d.nanoseconds() == ns;
+                let ok =
+                    d.year() as i64 == c.year && d.month() == c.month && d.month_day() == c.day && d.hour() == c.hour && d.minute() == c.minute && d.second() == c.second && d.week_day() == wd && d.year_day() == yd && d.nanoseconds() == ns;
                 if !ok {
                     l.violation(
                         "gmtime: wrong UTC fields",
@@ -187,6 +179,7 @@ pub fn run(ctx: &Ctx) -> Report {
         "range_edge_ok",
         "range_edge_err",
         "i64_extreme_err",
+        "count_whose_seconds_are_not_an_i64",
         "cycles_of_400_years_probed",
     ];
     if let Err(e) = cal::self_test() {
@@ -243,6 +236,49 @@ pub fn run(ctx: &Ctx) -> Report {
         if i % 29 == 0 {
             l.sample(|| sample(t, 999_999_999));
         }
+    });
+
+    // wl 8: nanosecond counts whose second count is not an i64 (a narrowing conversion would wrap them into the
+    // range): k * 2^64 s + an in-range second count, and random i128 values; all must be refused
+    run_cases(ctx, &mut rep, 8, ctx.n(200, 2000), |l, rng, i| {
+        let g = 1_000_000_000i128;
+        let mut n = 0;
+        for j in 0..50u64 {
+            let s_in = match j % 5 {
+                0 => 0,
+                1 => MIN,
+                2 => MAX,
+                3 => rng.range(-4_000_000_000, 4_000_000_000),
+                _ => rng.range(MIN, MAX),
+            } as i128;
+            let k: i128 = match (i + j) % 6 {
+                0 => 1,
+                1 => -1,
+                2 => 2,
+                3 => -(rng.range(1, 9_000_000_000) as i128),
+                4 => rng.range(1, 9_000_000_000) as i128,
+                _ => *rng.pick(&[3i128, -2, 1 << 20, -(1 << 20), 9_223_372_036, -9_223_372_036]),
+            };
+            let secs = k.checked_mul(1i128 << 64).and_then(|x| x.checked_add(s_in));
+            let total = match secs.and_then(|x| x.checked_mul(g)).and_then(|x| x.checked_add(rng.below(1_000_000_000) as i128)) {
+                Some(t) => t,
+                None => ((rng.next() as i128) << 64) | rng.next() as i128,
+            };
+            let secs = total.div_euclid(g);
+            if secs >= MIN as i128 && secs <= MAX as i128 {
+                continue;
+            }
+            n += 1;
+            l.class("count_whose_seconds_are_not_an_i64");
+            if let Ok(d) = facade::utc_from_total_ns(total) {
+                l.violation("gmtime: nanosecond count outside the supported range accepted", format!("UtcDateTime::from_total_nanoseconds({})", total), "Err(OutOfRange)".into(), facade::fmt_utc(&d));
+            }
+            if let Ok(d) = facade::dt_from_total_ns(total, tz::TimeZoneRef::utc()) {
+                l.violation("gmtime: nanosecond count outside the supported range accepted", format!("DateTime::from_total_nanoseconds({}, utc)", total), "Err(OutOfRange)".into(), facade::fmt_dt(&d));
+            }
+            l.distinct_hash(Fnv::new().i(total as i64).i((total >> 64) as i64).get());
+        }
+        l.op_n("from_total_nanoseconds", 2 * n);
     });
 
     // wl 4: random inside the range, wl 5: random over i64
